@@ -73,6 +73,11 @@ def run(tier):
         rep.violation('paging:%s:%s:%s:%s' % (t['impl'], a[0], t['variants'][l - 1], clause),
                       'impl %s, pre o7ffd=%d, action %d %s (%s): %s; observed %s'
                       % (t['impl'], t['pre'], l, a, t['variants'][l - 1], clause, t['obs'][l - 1]), t)
+    # millions of traces in the thorough tier: free them before the next pools fork (copy-on-write of a 10 GB parent
+    # got workers OOM-killed, which makes Pool.map wait for ever)
+    del parts, traces, bad
+    import gc
+    gc.collect()
     # (C) state invariants on single steps of every opcode slot: ranges, ROM immutable, T monotone
     steps = c05.step_cases(4 if tier == 'quick' else 40, sd + 17)
     fails = c05.judge_steps(rep, steps, wd, mode='c08')
